@@ -379,7 +379,7 @@ pub fn unit_history(ctx: &Ctx, u: usize) -> History {
 }
 
 pub fn total_units(ctx: &Ctx) -> usize {
-    ctx.scale(80_000, 800_000)
+    ctx.scale(80_000, 1_500_000)
 }
 
 pub const BATCH: usize = 64;
